@@ -78,6 +78,8 @@ def command(draw):
         c['rev'] = draw(st.booleans())
         c['sel'] = draw(D.selection())
         c['ext'] = draw(st.sampled_from([None, None, '.pel']))
+        # --clean is only meaningful with --json / --file; every other mode must stay read-only with it
+        c['clean'] = c['mode'] != '-f' and draw(st.integers(0, 2)) == 0
     elif kind == 'json':
         c['out'] = draw(st.sampled_from(['same', 'inside', 'outside', 'none', 'missing']))
         c['sel'] = draw(D.selection())
@@ -85,6 +87,10 @@ def command(draw):
     elif kind == 'delete':
         c['spell'] = draw(st.sampled_from(['plain', '0x', '0Xlower', 'lower', 'short', 'long']))
     return c
+
+
+def draw_clean_spelling(n):
+    return '-c' if n % 2 else '--clean'
 
 
 def spell(v, how):
@@ -139,6 +145,8 @@ def tree_snapshots(case, note):
                 argv.append('-r')
             if c['ext']:
                 argv += ['-e', c['ext']]
+            if c.get('clean'):
+                argv.append(draw_clean_spelling(len(argv)))
             argv += D.selection_argv(c['sel'])
         elif kind == 'json':
             argv.append('-j')
